@@ -87,7 +87,7 @@ func (in *Interp) sha256Term(msg []*Term) *Term {
 			break
 		}
 	}
-	if allConst {
+	if allConst && in.shaRealConst {
 		buf := make([]byte, len(msg))
 		for i, b := range msg {
 			buf[i] = byte(b.c)
